@@ -1373,14 +1373,10 @@ fn gen_targeted(rng: &mut Rng, out: &mut Vec<Case>) {
 
 fn gen_cycles(rng: &mut Rng, tier: Tier, out: &mut Vec<Case>) {
     let quick = tier == Tier::Quick;
-    // at most 254 rows: the catalog row of a table is re-versioned per inserted row and the version counter is a u8
-    // (`old_version + 1` panics at 256 with overflow checks: finding of C16/C18, kept out of this family)
-    let rows = *rng.pick(&[1i64, 7, 50, 51, 120, 250]);
+    let rows = *rng.pick(&[1i64, 7, 50, 51, 120, 300]);
     let cycles = if quick { rng.range(12, 20) } else { rng.range(12, 60) };
     let reopen = *rng.pick(&[0i64, 0, 1, 5, 7]);
     let how = *rng.pick(&["auto", "sess", "batch", "rbk"]);
-    // `rbk` inserts (and rolls back) one more row per cycle: stay below the 255 inserts a table survives
-    let rows = if how == "rbk" && rows + cycles > 250 { 120 } else { rows };
     let line = format!("cycles rows={} cycles={} reopen={} how={}", rows, cycles, reopen, how);
     let mut tags = vec!["cycles".to_string(), "nt".to_string(), format!("how_{}", how), "clean".to_string()];
     if reopen > 0 {
@@ -1403,10 +1399,10 @@ impl Engine for VacuumEngine {
         for _ in 0..(if quick { 24 } else { 200 }) {
             gen_cycles(rng, tier, &mut out);
         }
-        // more than 255 updates of one row: the u8 version counter overflows whatever VACUUM does (region finding)
+        // more than 255 updates of one row: the u8 version counter of the tuple wraps (it used to overflow: 02a6d5d)
         out.push(Case {
             line: format!("cycles rows={} cycles=260 reopen=0 how=auto", rng.range(1, 3)),
-            tags: vec!["cycles".into(), "nt".into(), "cycles_over_255".into(), "kf:cycles_over_255".into()],
+            tags: vec!["cycles".into(), "nt".into(), "cycles_over_255".into(), "clean".into()],
         });
         out
     }
